@@ -567,7 +567,8 @@ Proof.
     apply append_correct; assumption.
   - destruct (nth_error (master s) i) eqn:E; [|discriminate]. intros H. inversion H. subst.
     apply (delete_correct s i m HI E).
-  - destruct (inst_alive s h && in_master h (master s)) eqn:Hc; [|discriminate].
+  - destruct (inst_alive s h) eqn:Hal; [|discriminate].
+    destruct (in_master h (master s)) eqn:Hc; [|intros H; inversion H; subst; exact HI].
     destruct (m_find (inst_id s h) (sorted s)) as [h'|] eqn:F; [|discriminate].
     destruct (find_node h' (master s)) as [n|] eqn:Fn; [|discriminate].
     intros H. inversion H. subst.
@@ -596,8 +597,8 @@ Proof.
   intros HI. destruct o as [id name|h state|i|h|i state| | |]; cbn [step]; try discriminate.
   - destruct (inst_alive s h); discriminate.
   - destruct (nth_error (master s) i); discriminate.
-  - destruct (inst_alive s h && in_master h (master s)) eqn:Hc; [|discriminate].
-    apply andb_prop in Hc. destruct Hc as [Ha Hm]. apply in_master_spec in Hm.
+  - destruct (inst_alive s h) eqn:Ha; [|discriminate].
+    destruct (in_master h (master s)) eqn:Hm; [|discriminate]. apply in_master_spec in Hm.
     assert (F : m_find (inst_id s h) (sorted s) = Some h) by (apply (inv_sorted s HI); auto).
     rewrite F. destruct (find_node_spec h (master s) Hm) as [n [Fn _]]. rewrite Fn. discriminate.
   - destruct (nth_error (master s) i); [destruct state|]; discriminate.
@@ -698,7 +699,8 @@ Proof.
   - destruct (inst_alive s h) eqn:Ha; [|discriminate]. inversion H. subst.
     destruct (append_correct s h state HI Ha) as [_ [Hin E| id]]; [rewrite E; lia|assumption].
   - destruct (nth_error (master s) i) eqn:E; [|discriminate]. inversion H. cbn. lia.
-  - destruct (inst_alive s h && in_master h (master s)); [|discriminate].
+  - destruct (inst_alive s h); [|discriminate].
+    destruct (in_master h (master s)); [|inversion H; subst; lia].
     destruct (m_find (inst_id s h) (sorted s)); [|discriminate].
     destruct (find_node n (master s)); [|discriminate]. inversion H. cbn. lia.
   - destruct (nth_error (master s) i); [|discriminate]. destruct state; inversion H; cbn; lia.
